@@ -7,8 +7,6 @@ VERIF = os.path.dirname(os.path.dirname(os.path.abspath(__file__)))
 names = sorted(os.listdir(os.path.join(VERIF, "seeded")))
 sel = [a for a in sys.argv[1:] if not a.startswith("--")]
 scratch = tempfile.mkdtemp(prefix="rsav-seeds-")
-bk = os.path.join(scratch, "evidence")
-shutil.copytree(os.path.join(VERIF, "evidence"), bk)
 missed = []
 try:
     for n in names:
@@ -25,7 +23,7 @@ try:
             print("PATCH-FAILED %s: %s" % (n, r.stdout[-200:]))
             missed.append(n)
             continue
-        r = subprocess.run([os.path.join(VERIF, "check"), prop], cwd=VERIF, env=dict(os.environ, RSAV_REPO=repo), stdout=subprocess.PIPE, stderr=subprocess.STDOUT, text=True)
+        r = subprocess.run([os.path.join(VERIF, "check"), prop], cwd=VERIF, env=dict(os.environ, RSAV_REPO=repo, RSAV_OUT_DIR=os.path.join(scratch, "out")), stdout=subprocess.PIPE, stderr=subprocess.STDOUT, text=True)
         rules = sorted({l.strip().split()[1] for l in r.stdout.splitlines() if l.strip().startswith("rule ")})
         ok = r.returncode == 1 and rules
         print("%s %-58s %s -> %s" % ("caught" if ok else "MISSED", n, prop, ",".join(rules)))
@@ -33,8 +31,6 @@ try:
             missed.append(n)
         shutil.rmtree(repo, ignore_errors=True)
 finally:
-    shutil.rmtree(os.path.join(VERIF, "evidence"))
-    shutil.copytree(bk, os.path.join(VERIF, "evidence"))
     shutil.rmtree(scratch, ignore_errors=True)
 print("%d missed" % len(missed))
 sys.exit(1 if missed else 0)
